@@ -55,7 +55,8 @@ class C05(LoopSpec):
         if tier == "quick":
             return [mkjob("R1", 4, True, sym_body=["periodic"]), mkjob("R2", 4, True), mkjob("R3", 4, False),
                     mkjob("R2", 3, False, sym_shutdown=True), mkjob("R1", 3, True, period="sym"),
-                    mkjob("R3", 3, True, period=0.05, sym_body=["periodic"]), mkjob("R4", 3, True)]
+                    mkjob("R3", 3, True, period=0.05, sym_body=["periodic"]), mkjob("R4", 3, True),
+                    mkjob("R2", 3, True, fms=True, faults=1, fault_patterns=["later", "always"], fault_sites=["c1.execute", "c2.execute", "robot.teleopPeriodic"])]
         return [mkjob("R1", 5, True, sym_body=["periodic"]), mkjob("R2", 6, True), mkjob("R3", 6, False),
                 mkjob("R2", 5, True, sym_shutdown=True), mkjob("R1", 4, True, raw_words=True),
                 mkjob("R3", 3, True, change_at_dispatch=True), mkjob("R1", 4, True, period="sym", sym_body=["periodic"]),
@@ -132,12 +133,16 @@ class C07(LoopSpec):
                     mkjob("R3", 3, False, fms=True, faults=2, fault_patterns=["always"]),
                     mkjob("R1", 3, True, fms="per-refresh", faults=1, fault_patterns=["always"]),
                     # faults that are not Exception subclasses (SystemExit-like) are user-callback exceptions too
-                    mkjob("R2", 3, True, fms="sym", faults=1, fault_patterns=["first"], fault_kind="base")]
+                    mkjob("R2", 3, True, fms="sym", faults=1, fault_patterns=["first"], fault_kind="base"),
+                    # any kind of exception (AttributeError, TypeError, KeyError, StopIteration, ...) at the lifecycle hooks
+                    mkjob("R1", 2, True, fms="sym", faults=1, fault_patterns=["first"], fault_kind="any",
+                          fault_sites=["c1.on_enable", "c2.on_disable", "c1.execute", "robot.teleopInit", "auto.on_enable"])]
         return [mkjob("R1", 4, True, fms="sym", faults=1), mkjob("R2", 4, True, fms="sym", faults=1),
                 mkjob("R2", 3, True, fms=True, faults=2, fault_patterns=["always", "later"]),
                 mkjob("R3", 4, False, fms="sym", faults=1, sym_shutdown=True),
                 mkjob("R2", 3, True, fms="per-refresh", faults=1, fault_patterns=["always", "later"]),
-                mkjob("R1", 4, True, fms="sym", faults=1, fault_patterns=["first", "always"], fault_kind="base")]
+                mkjob("R1", 4, True, fms="sym", faults=1, fault_patterns=["first", "always"], fault_kind="base"),
+                mkjob("R2", 3, True, fms="sym", faults=1, fault_patterns=["first", "later"], fault_kind="any")]
 
     def reach_required(self, tier):
         return ["fault-swallowed", "fault-propagated", "no-fault-fired", "iteration-auto", "iteration-teleop",
